@@ -71,9 +71,17 @@ def prune_work(keep_hash):
     base = os.path.join(WORK, 'trees')
     if not os.path.isdir(base):
         return
-    entries = sorted((os.path.getmtime(os.path.join(base, d)), d) for d in os.listdir(base))
-    for _, d in entries[:-12]:
-        if d != keep_hash:
+    entries = []
+    for d in os.listdir(base):
+        try:
+            entries.append((os.path.getmtime(os.path.join(base, d)), d))
+        except OSError:
+            pass        # removed by a concurrent run
+    entries.sort()
+    now = time.time()
+    for mt, d in entries[:-24]:
+        # never remove a cache that was touched in the last half hour: a concurrent check of another tree may be using it
+        if d != keep_hash and now - mt > 1800:
             subprocess.run(['rm', '-rf', os.path.join(base, d)])
 
 
